@@ -28,6 +28,7 @@ type SpecEnv struct {
 	atCallSite bool            // a callee's contract instantiated at a call: res() of the callee's own calls is unknown
 	skip     *bool             // set when the clause cannot be expressed in this context
 	oldVars  map[string]*Val   // parameter values at function entry (for old())
+	visited  func(k string) string  // ghost visited set of the enclosing map range
 	prevVal  func(name string) *Val // start-of-iteration values (loopback sites)
 	prevState *State
 	siteDominated func(callee string, n int) bool // structural: is this site dominated by that call?
@@ -97,7 +98,15 @@ func (e *SpecEnv) inOld() *SpecEnv {
 	}
 	if e.oldVars != nil {
 		// old(x) of a parameter is its value at entry, whatever has been assigned to it since
-		n.vars = e.oldVars
+		n.vars = map[string]*Val{}
+		for k, v := range e.oldVars {
+			n.vars[k] = v
+		}
+		for k, v := range e.vars {
+			if e.bound["q!"+k] != "" { // quantified variables stay in scope inside old()
+				n.vars[k] = v
+			}
+		}
 		n.resolve = nil
 	}
 	return &n
@@ -377,6 +386,10 @@ func (e *SpecEnv) selectField(v *Val, name string) *Val {
 		return e.fail("selector .%s on untyped value", name)
 	}
 	st, stT, isPtr := derefStruct(v.T)
+	if st == nil && strings.HasPrefix(strings.TrimPrefix(v.S, "|"), "nores!") {
+		// a field of the result of a call that is absent: unconstrained as well
+		return &Val{T: mathInt, S: e.fr.u.S.fresh("nores", "Int"), Math: true}
+	}
 	if st == nil {
 		return e.fail("selector .%s on non-struct type %s", name, v.T)
 	}
@@ -446,6 +459,16 @@ func (e *SpecEnv) binary(x *ast.BinaryExpr) *Val {
 	case token.LOR:
 		return &Val{T: boolT, S: or(ls, rs)}
 	case token.EQL, token.NEQ:
+		// the result of a call that is absent (res() of a missing site) takes the sort of what it is compared with
+		if strings.HasPrefix(ls, "nores!") || strings.HasPrefix(ls, "|nores!") {
+			if so := e.sortOfVal(r); so != "" && so != "Int" {
+				ls = e.fr.u.S.fresh("nores", so)
+			}
+		} else if strings.HasPrefix(rs, "nores!") || strings.HasPrefix(rs, "|nores!") {
+			if so := e.sortOfVal(l); so != "" && so != "Int" {
+				rs = e.fr.u.S.fresh("nores", so)
+			}
+		}
 		// nil comparisons on slices compare the backing array
 		if isNilLit(x.Y) && e.sortOfVal(l) == "Slice" {
 			ls, rs = app("sl_arr", ls), "0"
@@ -586,6 +609,11 @@ func (e *SpecEnv) call(x *ast.CallExpr) *Val {
 		}
 		// no such call (yet): an unconstrained value — combine with dominatedBy() to demand that the call exists
 		return &Val{T: mathInt, S: e.fr.u.S.fresh("noarg", "Int"), Math: true}
+	case "visited":
+		if e.visited == nil || len(x.Args) != 1 {
+			return e.fail("visited() is only available in invariants of a loop ranging over a map")
+		}
+		return &Val{T: boolT, S: e.visited(e.fr.termOf(arg(0)))}
 	case "dominatedBy":
 		if e.siteDominated != nil && len(x.Args) == 2 {
 			var n int
@@ -658,7 +686,7 @@ func (e *SpecEnv) call(x *ast.CallExpr) *Val {
 			vars[pd.Name] = v
 		}
 		n := &SpecEnv{fr: e.fr, vars: vars, cur: e.cur, old: e.old, pkg: e.pkgOf(p.Pkg), errs: e.errs, depth: e.depth + 1,
-			bound: e.bound, iterElem: e.iterElem, iterCount: e.iterCount, callArgs: e.callArgs, atCallSite: e.atCallSite, skip: e.skip, siteDominated: e.siteDominated}
+			bound: e.bound, iterElem: e.iterElem, iterCount: e.iterCount, callArgs: e.callArgs, atCallSite: e.atCallSite, skip: e.skip, siteDominated: e.siteDominated, visited: e.visited}
 		return n.eval(p.Body.Expr)
 	}
 	if sf, ok := u.C.Specs[fname]; ok {
